@@ -1091,6 +1091,21 @@ def r40_and_then(src, item, ed, opts):
             ed.replace(cn["body"][1], n["range"][1], ") })", "R40")
             ed.count("R40")
             continue
+        if n["method"] == "map" and len(n["args"]) == 1 and opts.get("option_map"):
+            # (opt-in per function: `option_map = true` says every `.map(closure)` of it is Option::map)
+            # `O.map(|P| E)` -> `(match O { Some(P) => Some(E), None => None })`: the definition of Option::map
+            cn = clos.get(tuple(n["args"][0]["range"]))
+            if cn is None or len(cn["inputs"]) != 1:
+                continue
+            body = re.sub(r'"(?:[^"\\\\]|\\\\.)*"', '""', src.text(*cn["body"]))
+            if "?" in body or re.search(r"\breturn\b", body):
+                raise Unsupported("R40: `?`/`return` inside a map closure")
+            pat = src.text(*cn["inputs"][0]["range"])
+            ed.insert(n["range"][0], "(match ", "R40", prio=-(n["range"][1] - n["range"][0]))
+            ed.replace(n["receiver"][1], cn["body"][0], f" {{ Some({pat}) => Some(", "R40")
+            ed.replace(cn["body"][1], n["range"][1], "), None => None })", "R40")
+            ed.count("R40")
+            continue
         if n["method"] == "and_then" and len(n["args"]) == 1:
             ca, dflt = n["args"][0], None
         elif n["method"] == "map_or" and len(n["args"]) == 2:
